@@ -45,17 +45,17 @@ def run(ctx):
             # no non-strict comparison anywhere
             ops = [st["r"]["op"] for _, _, st in f.stmts() if st["k"] == "assign" and st["r"]["k"] == "binop"]
             ctx.ob("C17.G.comparisons-strict", f.key, "comparison operators", sorted(set(ops)) == ["Gt", "Lt"], "binops %s" % ops)
-            ok2 = bool(ds) and all(ctx._sat(d, r"^is_some\(_\d+\)=False$") or ctx._sat(d, r"^Lt\(.*unwrap\(.*\)\.0, strsim::jaro_winkler\(.*\)\)=True$") for d in ds)
+            ok2 = bool(ds) and all(ctx._sat(d, r"^is_some\(_\d+\)=False$") or ctx._sat(d, r"^Lt\(\(_\d+ as Some\)\.0\.0, strsim::jaro_winkler\(.*\)\)=True$") for d in ds)
             ctx.ob("C17.G.strict-improvement", f.key, "update under (no candidate ∨ best < confidence)", ok2, "a better earlier suggestion must never be replaced by an equal or worse one")
         # threshold is a compile-time constant
         consts = [ctx.expr(f, st["r"]["b"]) for _, _, st in f.stmts() if st["k"] == "assign" and st["r"]["k"] == "binop" and st["r"]["op"] == "Gt"]
         ctx.ob("C17.G.threshold-constant", f.key, "threshold", len(consts) == 1 and re.match(r"^[0-9.]+f64$", consts[0]) is not None, "%s" % consts)
-        rs = [e for _, e in ctx.ret_exprs(f)]
+        rs = ctx.ret_values(f)
         ctx.ob("C17.G.result-is-candidate", f.key, "return", len(rs) == 1 and rs[0].startswith("core::option::Option::<T>::map(_"), "%s" % [r[:120] for r in rs])
     # feature off: constant None, no call
     off = ctx.fn(K + "did_you_mean", cfg="off")
     if off:
-        rs = [e for _, e in ctx.ret_exprs(off)]
+        rs = ctx.ret_values(off)
         ncalls = len(list(off.calls()))
         ctx.ob("C17.G.feature-off-stub", off.key + " [suggestions off]", "return None, no calls", rs == ["core::option::Option::None{}"] and ncalls == 0, "returns %s with %d calls" % (rs, ncalls))
     # add_alts
